@@ -36,6 +36,8 @@ QString PrettyFormatter::format(const LogMessage &lmsg)
     static const QLatin1Char bracketClose(']');
     static const QLatin1Char letterT('T');
 
+    QMutexLocker locker(&m_mutex);
+
     const auto type = lmsg.type();
     const auto threadId = lmsg.threadId();
     const auto categoryRaw = lmsg.category();
